@@ -1362,3 +1362,77 @@ package main
 //@   ensures chain: forall j int :: old(calls(transT)) <= j && j + 1 < calls(transT) ==> arg(transT, j + 1) == transT(arg(transT, j))
 //@   ensures last: result == transT(arg(transT, calls(transT) - 1))
 //@   ensures clean: no_tdtv(result)
+
+// ---------------------------------------------------------------------------------------------
+// C09 / C07: the global type-info tables.  The key of an instantiated union / record type is its name
+// and ALL its type arguments in order; instantiating a union registers every case of its definition,
+// in declaration order, under that key.
+// ---------------------------------------------------------------------------------------------
+
+//@ func encodedKey
+//@   props C09 C07
+//@   ghost M []string
+//@   panics may
+//@   ensures text: result == tos_spec(box(name)) + "_" + join_prefix(M, "_", len(targs))
+//@   ensures mapped: forall k int :: 0 <= k && k < len(targs) ==> M[k] == go_type(targs[k])
+//@   at after call slice.Map#0: M = ret
+
+//@ func uniToKey
+//@   props C09 C07
+//@   ghost M []string
+//@   panics may
+//@   ensures text: result == ut.Name + "_" + join_prefix(M, "_", len(ut.Targs))
+//@   ensures mapped: forall k int :: 0 <= k && k < len(ut.Targs) ==> M[k] == go_type(ut.Targs[k])
+//@   at after call encodedKey#0: M = c_M
+
+//@ func rtToKey
+//@   props C09 C07
+//@   ghost M []string
+//@   panics may
+//@   ensures text: result == rt.Name + "_" + join_prefix(M, "_", len(rt.Targs))
+//@   ensures mapped: forall k int :: 0 <= k && k < len(rt.Targs) ==> M[k] == go_type(rt.Targs[k])
+//@   at after call encodedKey#0: M = c_M
+
+//@ func updateUniInfo
+//@   trusted
+//@   modifies maps
+//@   panics may
+//@   note abstract: stores the info under uniToKey(ut) in the global table (dict.Add on a package-level dictionary)
+
+//@ func tpreplace
+//@   trusted
+//@   panics may
+//@   note abstract: substitution of type parameters by the type arguments (transTVFType)
+
+//@ func GenUnionType
+//@   props C09
+//@   modifies maps
+//@   ghost UI UnionTypeInfo      -- the info registered
+//@   ghost UT UnionType          -- the type it is registered for
+//@   panics may
+//@   ensures registered-for-result: UT == result && result.Name == uf.Name && result.Targs == stlist
+//@   ensures all-cases: len(UI.Cases) == len(uf.Cases)
+//@   ensures case-names-in-order: forall k int :: 0 <= k && k < len(uf.Cases) ==> UI.Cases[k].Name == uf.Cases[k].Name
+//@   at before call updateUniInfo#0: UI = ui
+//@   at before call updateUniInfo#0: UT = ut
+
+//@ func newNTPair
+//@   props C09
+//@   panics never
+//@   returns mk_main_NameTypePair(name, ft)
+
+//@ func tupToNTPair
+//@   props C09
+//@   panics never
+//@   returns mk_main_NameTypePair(tup.E0, tup.E1)
+
+//@ func tryUniFacToUniType
+//@   props C09
+//@   modifies maps
+//@   ghost UI UnionTypeInfo
+//@   ghost UT UnionType
+//@   panics may
+//@   ensures only-non-generic: result.E1 == (len(uf.Tparams) == 0)
+//@   ensures registered: result.E1 ==> UT == result.E0 && result.E0.Name == uf.Name && len(result.E0.Targs) == 0 && UI.Cases == uf.Cases
+//@   at before call updateUniInfo#0: UI = ui
+//@   at before call updateUniInfo#0: UT = ut
